@@ -24,7 +24,7 @@ func id() string { return os.Getenv("VERIF_ID") }
 
 var rules = map[string]string{
 	"C04": "cases = (file set over a 48-name universe with prefix/concatenation/equal-base names and a 7-value content pool incl. empty, list order, interleaved directories, edit script of 1-3 steps from {content, rename, add, remove, swap}); list sizes drawn around the worker-count boundary; oracles: every reordering / directory interleaving / GOMAXPROCS in {1,2,4,16} / repetition gives one digest, and a run-wide book digest<->canonical set of (abs path, content) stays a bijection; plus a taskset matrix comparing child processes with NumCPU in {1,2,4,16}. Non-trivial: >= 2 regular files and >= 1 edit step; distinct by (set, order, dirs, script)",
-	"C18": "path lists over a temp tree with entries of kind regular/empty/dir/missing/dangling symlink/symlink/path below a file/vanishing (removed and recreated concurrently); every position of every faulty kind in every list of size <= 6 (exhaustive), sizes 0..4*NumCPU and 10^4 with duplicates, GOMAXPROCS in {1,2,4,16}; run in-process (also under -race) with goroutine accounting; a crash or stall of the shard process is attributed to the list in flight through the progress area and confirmed solo. Non-trivial: >= 1 faulty or vanishing entry and >= 1 regular file; distinct by shape",
+	"C18": "path lists over a temp tree with entries of kind regular/empty/dir/missing/dangling symlink/symlink/path below a file/vanishing (removed and recreated concurrently)/shrinking (cut to nothing in place and refilled concurrently); every position of every faulty kind in every list of size <= 6 (exhaustive), sizes 0..4*NumCPU and 10^4 with duplicates, GOMAXPROCS in {1,2,4,16}; run in-process (also under -race) with goroutine accounting; a crash or stall of the shard process is attributed to the list in flight through the progress area and confirmed solo. Non-trivial: >= 1 faulty or vanishing entry and >= 1 regular file; distinct by shape",
 }
 
 func workRoot(t testing.TB) string {
@@ -129,7 +129,7 @@ func TestC18Positions(t *testing.T) {
 		reps = 25
 	}
 	seen := map[string]bool{}
-	for _, kind := range []string{KMissing, KDangling, KUnread, KReadFail, KLoop, KLongName, KVanish, KDir, KEmpty, KSymlink} {
+	for _, kind := range []string{KMissing, KDangling, KUnread, KReadFail, KLoop, KLongName, KVanish, KShrink, KDir, KEmpty, KSymlink} {
 		for n := 1; n <= 6; n++ {
 			for pos := 0; pos < n; pos++ {
 				for _, procs := range procChoices {
@@ -152,12 +152,22 @@ func TestC18Positions(t *testing.T) {
 		}
 	}
 	// two faults, and a fault next to a directory
-	for _, a := range []string{KMissing, KDangling, KVanish} {
+	for _, a := range []string{KMissing, KDangling, KVanish, KShrink} {
 		for _, b := range []string{KMissing, KDir, KVanish} {
 			for _, procs := range procChoices {
 				runList(t, s, root, ListCase{Kinds: []string{a, KRegular, b, KRegular}, GoMaxProcs: procs}, seen)
 				runList(t, s, root, ListCase{Kinds: []string{KRegular, a, b}, GoMaxProcs: procs}, seen)
 			}
+		}
+	}
+	// no file descriptor to spare while hashing
+	for n := 0; n <= 6; n++ {
+		for _, procs := range procChoices {
+			c := ListCase{GoMaxProcs: procs, NoFds: true}
+			for i := 0; i < n; i++ {
+				c.Kinds = append(c.Kinds, []string{KRegular, KDir, KSymlink}[i%3])
+			}
+			runList(t, s, root, c, seen)
 		}
 	}
 	// empty list, single entries, lists made of directories only
@@ -175,7 +185,7 @@ func TestC18Positions(t *testing.T) {
 	}
 }
 
-var c18Kinds = []string{KRegular, KRegular, KRegular, KRegular, KEmpty, KDir, KDir, KMissing, KDangling, KSymlink, KVanish, KUnread, KReadFail, KLoop, KLongName}
+var c18Kinds = []string{KRegular, KRegular, KRegular, KRegular, KEmpty, KDir, KDir, KMissing, KDangling, KSymlink, KVanish, KShrink, KUnread, KReadFail, KLoop, KLongName}
 
 func genList(t *rapid.T) ListCase {
 	cpu := runtime.NumCPU()
@@ -192,7 +202,7 @@ func genList(t *rapid.T) ListCase {
 	allOK := rapid.IntRange(0, 3).Draw(t, "all_ok") == 0
 	for i := 0; i < n; i++ {
 		k := rapid.SampledFrom(c18Kinds).Draw(t, "kind")
-		if allOK && (faulty(k) || k == KVanish) {
+		if allOK && (faulty(k) || k == KVanish || k == KShrink) {
 			k = KRegular
 		}
 		c.Kinds = append(c.Kinds, k)
@@ -207,6 +217,7 @@ func genList(t *rapid.T) ListCase {
 		}
 	}
 	c.Shared = c.Repeat == 0 && rapid.IntRange(0, 3).Draw(t, "shared") == 0
+	c.NoFds = !c.Shared && rapid.IntRange(0, 11).Draw(t, "no_fds") == 0
 	return c
 }
 
